@@ -316,21 +316,21 @@ kproof_vp! { fn k02e_step_ref_greedy_h3() { token_step::<6, 2>(true, false, fals
 use crate::hash_chain_holder::verif_harness::{UPD_LOG, UPD_N, UPD_CAP};
 const MK: usize = 8;
 const HK: usize = 4;
-static mut M_KEY: [[u32; 5]; MK] = [[0; 5]; MK];
-static mut M_RES: [[u32; 3]; MK] = [[0; 3]; MK];
-static mut M_N: usize = 0;
-static mut H_REC: [[u32; 6]; HK] = [[0; 6]; HK]; // pos, state, len, dist, hops, ok
-static mut H_N: usize = 0;
+static mut M_KEY: [[u32; 5]; MK] = [[0x5EED_0021; 5]; MK];
+static mut M_RES: [[u32; 3]; MK] = [[0x5EED_0022; 3]; MK];
+static mut M_N: usize = 0x5EED_0000_0000_0023;
+static mut H_REC: [[u32; 6]; HK] = [[0x5EED_0024; 6]; HK]; // pos, state, len, dist, hops, ok
+static mut H_N: usize = 0x5EED_0000_0000_0025;
 pub struct ContractHolder { policy: crate::add_policy_estimator::DictionaryAddPolicy }
 fn ch_state() -> u32 { unsafe { UPD_N[UPD_SIDE] as u32 } }
 impl ContractHolder {
-    fn reset() { unsafe { M_N = 0; H_N = 0; UPD_N = [0; 2]; } }
+    fn reset() { unsafe { M_N = 0; H_N = 0; UPD_N = [0; 2]; UPD_SIDE = 0; } }
     fn query(&self, offset: u32, prev_len: u32, max_depth: u32, input: &PreflateInput) -> MatchResult {
         let key = [offset, prev_len, max_depth, input.pos(), ch_state()];
         unsafe {
             let mut i = 0;
             while i < MK {
-                if i < M_N && M_KEY[i] == key {
+                if i < M_N && M_KEY[i][0] == key[0] && M_KEY[i][1] == key[1] && M_KEY[i][2] == key[2] && M_KEY[i][3] == key[3] && M_KEY[i][4] == key[4] {
                     return Self::decode(M_RES[i]);
                 }
                 i += 1;
@@ -343,7 +343,8 @@ impl ContractHolder {
             let len: u32 = kani::any();
             let dist: u32 = kani::any();
             if v == 0 {
-                if rem >= 1 && p >= 1 { kani::assume(len >= 1 && len <= 258 && len <= rem && dist >= 1 && dist <= p); } else { v = 3; }
+                // (a reference shorter than MIN_MATCH is not representable: PreflateTokenReference stores len - 3)
+                if rem >= 3 && p >= 1 { kani::assume(len >= 3 && len <= 258 && len <= rem && dist >= 1 && dist <= p); } else { v = 3; }
             }
             M_KEY[M_N] = key;
             M_RES[M_N] = [v, len, dist];
@@ -531,3 +532,68 @@ kproof_vp! { fn k02m_contract_mirror_1() { contract_mirror::<6, 2, 1>(false); } 
 kproof_vp! { fn k02m_contract_mirror_2() { contract_mirror::<6, 1, 2>(false); } }
 kproof_vp! { fn k02m_contract_mirror_0() { contract_mirror::<6, 2, 0>(false); } }
 kproof_vp! { fn k02m_contract_mirror_stored() { contract_mirror::<6, 1, 0>(true); contract_mirror::<6, 1, 1>(true); contract_mirror::<6, 1, 4>(true); } }
+
+/// K04m: predict_block emits the same correction sequence as the reference build, matcher replaced on both sides by the
+/// same pure function of the query (XContract in the shared export module): walk of the token list, lazy rule, length /
+/// distance / hop corrections, irregular-258 flag, TokenCount signalling are all part of the stored format
+fn predict_equiv<const N: usize>() {
+    const T: usize = 6;
+    const P0: usize = 1;
+    let text: [u8; T] = kani::any();
+    let mut p = any_predictor_params();
+    p.max_token_count = 127;
+    let ans: [[u32; 3]; 4] = kani::any();
+    let hops: [u32; 4] = kani::any();
+    let mut i = 0;
+    while i < 4 { kani::assume(ans[i][0] < 5 && hops[i] < (1 << 20)); i += 1; }
+    let dynamic: bool = kani::any();
+    let mut is_ref = [false; N]; let mut lit = [0u8; N]; let mut l = [0u32; N]; let mut d = [0u32; N]; let mut irr = [false; N];
+    let mut pos = P0;
+    let mut i = 0;
+    while i < N {
+        kani::assume(pos < T);
+        if kani::any() {
+            let ll: usize = kani::any();
+            let dd: usize = kani::any();
+            kani::assume(valid_reference(&text[..], pos, ll, dd));
+            is_ref[i] = true; l[i] = ll as u32; d[i] = dd as u32;
+            pos += ll;
+        } else {
+            lit[i] = text[pos];
+            pos += 1;
+        }
+        i += 1;
+    }
+    let last: bool = kani::any();
+    kani::assume(!last || pos == T);
+    let (lazy, gl, ml) = match p.matching_type { crate::preflate_parse_config::MatchingType::Greedy => (0u32, 0u32, 0u32), crate::preflate_parse_config::MatchingType::Lazy { good_length, max_lazy } => (1, good_length as u32, max_lazy as u32) };
+    let (pk, pl) = match p.add_policy {
+        crate::add_policy_estimator::DictionaryAddPolicy::AddAll => (0u32, 0u32), crate::add_policy_estimator::DictionaryAddPolicy::AddFirst(v) => (1, v as u32),
+        crate::add_policy_estimator::DictionaryAddPolicy::AddFirstAndLast(v) => (2, v as u32), crate::add_policy_estimator::DictionaryAddPolicy::AddFirstExcept4kBoundary => (3, 0),
+        crate::add_policy_estimator::DictionaryAddPolicy::AddFirstWith32KBoundary => (4, 0),
+    };
+    let pf: [u32; 19] = [0, if p.strategy == PreflateStrategy::Default { 0 } else { 1 }, p.window_bits, p.nice_length, pk, pl, p.max_token_count as u32,
+        p.zlib_compatible as u32, p.max_dist_3_matches as u32, lazy, gl, ml, p.max_chain, p.min_len, 6, 0, 0, p.very_far_matches_detected as u32, p.matches_to_start_detected as u32];
+    let a = super::verif_export::predict_ops_contract::<N>(&text[..], &pf, &ans, &hops, dynamic, &is_ref, &lit, &l, &d, &irr, last, P0 as u32);
+    let b = preflate_ref::token_predictor::verif_export::predict_ops_contract::<N>(&text[..], &pf, &ans, &hops, dynamic, &is_ref, &lit, &l, &d, &irr, last, P0 as u32);
+    assert!(a.n == b.n, "predict_block emits a different number of corrections than the reference build (or one of them fails)");
+    let mut i = 0;
+    while i < 24 {
+        if i < a.n && a.n != 999 { assert!(a.kind[i] == b.kind[i] && a.ctx[i] == b.ctx[i] && a.val[i] == b.val[i], "predict_block emits a different correction than the reference build"); }
+        i += 1;
+    }
+    kani::cover!(a.n != 999 && is_ref[N - 1], "a block ending in a reference token compared");
+    kani::cover!(a.n == 999, "both builds report Err");
+}
+kproof_vp! {
+    #[kani::stub(preflate_ref::preflate_error::PreflateError::add_context, crate::verif_common::stub_ref_add_context)]
+    fn k04m_predict_equiv_1() { predict_equiv::<1>(); }
+}
+kproof_vp! {
+    #[kani::stub(preflate_ref::preflate_error::PreflateError::add_context, crate::verif_common::stub_ref_add_context)]
+    fn k04m_predict_equiv_2() { predict_equiv::<2>(); }
+}
+kproof_vp! {
+    #[kani::stub(preflate_ref::preflate_error::PreflateError::add_context, crate::verif_common::stub_ref_add_context)]
+    fn k04m_predict_equiv_3() { predict_equiv::<3>(); }
+}
